@@ -326,6 +326,7 @@ pub fn run(run: &Run, id: &str) {
     let ds: Vec<usize> = depths(run.tier).into_iter().filter(|d| *d <= cap).collect();
     run.rule("deep nesting: one tower per nesting position (22 makers) and per depth next to the powers of two, evaluated with the check's own oracle on a 1 GiB stack, with a twin that differs in the innermost leaf and a tower one level taller where the property relates two values");
     run.bound("deep_tower_depths", json!(ds));
+    run.sample(json!({"deep_tower": {"maker": MAKERS[MAKERS.len() / 2], "depth": ds.last(), "text_ascii_head": emit::join(&emit::term_toks(&fmts::ascii(), &tower(MAKERS[MAKERS.len() / 2], 3, R::word("a"))), "")}}));
     let violations: std::sync::Mutex<Vec<(String, usize, String)>> = std::sync::Mutex::new(vec![]);
     let n = std::sync::atomic::AtomicU64::new(0);
     std::thread::scope(|s| {
